@@ -47,7 +47,9 @@ SIG_COMP_MASS_SYM = "edit/component-mass-setter-ignores-symmetry-factor"
 SIG_SCALE_RAISES = "edit/changeNDensByFactor-raises-above-component"
 SIG_CART_FULL = "symmetry/cartesian-full-core-cut-through-center"
 # SIG_SCALE_RAISES and SIG_CART_FULL were repaired in /repo (fix: commits d096cbf, 971daf0): searched again; SIG_COMP_MASS_SYM is a known finding
-EXCLUDE_KNOWN = {SIG_COMP_MASS_SYM: True, SIG_SCALE_RAISES: False, SIG_CART_FULL: False}
+SIG_FLUID_DENSITY = "density/zeroed-fluid-component-raises"
+_ALLOW_KNOWN = [False]  # set per case from case["known"] (defect replay files only)
+EXCLUDE_KNOWN = {SIG_FLUID_DENSITY: True, SIG_COMP_MASS_SYM: True, SIG_SCALE_RAISES: False, SIG_CART_FULL: False}
 
 REL = 1e-10
 
@@ -86,6 +88,27 @@ def _elem(n):
         el = getattr(nb, "element", None)
         e = _ELEM[n] = (el.symbol if el is not None else None, isinstance(nb, nuclideBases.NaturalNuclideBase))
     return e
+
+
+_BYZ = {}
+
+
+def _z(n):
+    from armi.nucDirectory import nuclideBases
+
+    return getattr(nuclideBases.byName[n], "z", None)
+
+
+def _names_of_z(z):
+    """Every nuclide of the directory with atomic number z (elemental nuclide included), independent of any armi lookup."""
+    if not _BYZ:
+        from armi.nucDirectory import nuclideBases
+
+        for nb in nuclideBases.instances:
+            zz = getattr(nb, "z", None)
+            if zz is not None and 0 < zz < 119:
+                _BYZ.setdefault(zz, set()).add(nb.name)
+    return _BYZ.get(z, set())
 
 
 def _consts():
@@ -307,6 +330,15 @@ def check_node(out, tree, node, snap, full=False, queries=(), sample=(), density
             out.check(not bad and set(ms) == agg.names, "additivity/getMasses-%s" % _lvl(node),
                       lambda: "%s: getMasses()[%s]=%r expected %r" % ((where,) + (bad[0] if bad else ("<keys>", sorted(ms)[:5], names[:5]))))
         # mass = density x volume
+        if density and node.level == "component" and rho_e == 0.0 and not obj.containsSolidMaterial() and not obj.containsVoidMaterial():
+            # candidate finding: the material fallback of Component.density() reads ``density.__wrapped__``, which fluids do not have
+            if EXCLUDE_KNOWN.get(SIG_FLUID_DENSITY) and not _ALLOW_KNOWN[0]:
+                out.label("excluded:" + SIG_FLUID_DENSITY)
+            else:
+                try:
+                    obj.density()
+                except AttributeError as exc:
+                    out.fail(SIG_FLUID_DENSITY, "%s: all number densities are zero, density() raised AttributeError: %s" % (where, exc))
         if density and not (node.level == "component" and rho_e == 0.0):
             rho = obj.density()
             rabs = math.fsum(agg.aabs[n] * _weight(n) / C for n in names) / abs(agg.vol)
@@ -638,6 +670,26 @@ def run_program(out, tree, ops, queries=(), top=None, stats=None, handlers=None,
             snap = handlers[kind](op, step, snap)
             _held_check(out, held, "step %d %s" % (step, kind))
             continue
+        if kind == "editHeightEdit":
+            # deliberate history: edit at assembly/core level, change the height of one block below it (the volume fractions
+            # of the level change), then edit a nuclide that only some of the children hold at the same level again
+            lv = [l for l in ("assembly", "core") if l in tree.by_level]
+            if not lv:
+                continue
+            top_ = tree.by_level[lv[op["level"] % len(lv)]]
+            nd = top_[op["t"] % len(top_)]
+            below = [bn_ for bn_ in tree.by_level["block"] if set(bn_.leaves) <= set(nd.leaves)]
+            blk = below[op["b"] % len(below)]
+            ni = tree.nodes.index(nd)
+            work[0:0] = [
+                {"op": "setND", "level": 0, "t": 0, "_node": ni, "nuc": op["n1"], "v": op["v1"], "zero": False, "partial": True},
+                {"op": "setHeight", "t": tree.by_level["block"].index(blk), "order": [op["n1"][0], op["n2"][0]], "desc": False, "all": True,
+                 "hf": op["hf"]},
+                {"op": "setND", "level": 0, "t": 0, "_node": ni, "nuc": op["n2"], "v": op["v2"], "zero": False, "partial": True},
+            ]
+            out.label("history:edit-height-edit@%s" % nd.level)
+            step -= 1
+            continue
         if kind in STRUCT_OPS:
             if recheck is None:
                 def recheck(sn):
@@ -750,8 +802,60 @@ def run_program(out, tree, ops, queries=(), top=None, stats=None, handlers=None,
             sig_rb = SIG_COMP_MASS_SYM
         touched = set()
         try:
-            if kind == "setND":
+            if kind == "adjMF":
+                # adjustMassFrac(nuclide/element to adjust, nuclide/element to hold constant, val): docstring "Theory"
+                real = [n for n in present if _z(n) is not None and 0 < _z(n) < 119]
+                if not real or pre.total_mass() <= 0 or any(pre.atoms[n] < 0 for n in present):
+                    out.label("skip:adjustMassFrac-not-applicable")
+                    continue
+                nA = real[op["adj"][0] % len(real)]
+                byE = bool(op["adj"][1])
+                nH = real[op["hold"][0] % len(real)]
+                hmode = op["hold"][1] % 3 if _z(nH) != _z(nA) else 0
+                if op["seed"][1] and (byE or hmode == 2):
+                    # give the object a nuclide of that element that is rare in libraries (drawn from the whole directory)
+                    zs = _z(nA) if byE else _z(nH)
+                    exotic = sorted(_names_of_z(zs) - pre.names - {n for n in _names_of_z(zs) if _elem(n)[1]})
+                    hosts = [l for l in node.leaves if snap[l][1] > 0 and any(_z(k) == zs for k in snap[l][0])]
+                    if exotic and hosts:
+                        tree.leaf_nodes[hosts[0]].obj.setNumberDensity(exotic[op["seed"][0] % len(exotic)], _val(op["v"]))
+                        snap = _snapshot(tree)
+                        pre = Agg(tree, node, snap)
+                        present = sorted(pre.names)
+                        out.label("adjustMassFrac:with-rare-isotope")
+                M = pre.total_mass()
+                Aset = {n for n in present if _z(n) == _z(nA)} if byE else {nA}
+                Cset = set() if hmode == 0 else ({nH} if hmode == 1 else {n for n in present if _z(n) == _z(nH)})
+                A = math.fsum(pre.mass(n) for n in Aset) / M
+                Cs = math.fsum(pre.mass(n) for n in Cset) / M
+                O = 1.0 - A - Cs
+                if O <= 1e-6 or Cs >= 0.98:
+                    out.label("skip:adjustMassFrac-not-applicable")
+                    continue
+                v = round((0.02 + 0.9 * op["frac"]) * (1.0 - Cs), 9)
+                for n in present:
+                    if n in Aset:
+                        mf = pre.mass(n) / M * v / A if A > 0 else v / len(Aset)
+                    elif n in Cset:
+                        mf = pre.mass(n) / M
+                    else:
+                        mf = pre.mass(n) / M * (1.0 - v - Cs) / O
+                    expect[n] = mf * M * C / _weight(n)
+                    out.nontrivial = True
+                out.label("adjustMassFrac:%s/%s" % ("element" if byE else "nuclide", ("none", "nuclide", "element")[hmode]))
+                if node.level in ("component", "block", "group"):
+                    dens_before = obj.density()
+                elemA = _elem(nA)[0]
+                obj.adjustMassFrac(nuclideToAdjust=None if byE else nA, elementToAdjust=elemA if byE else None,
+                                   nuclideToHoldConstant=nH if hmode == 1 else None,
+                                   elementToHoldConstant=_elem(nH)[0] if hmode == 2 else None, val=v)
+            elif kind == "setND":
                 nuc, here = _pick_nuc(present, absent, op["nuc"])
+                if op.get("partial") and not comp:
+                    some = [n for n in present if 0 < holders(n) < len(node.children)]
+                    if some:
+                        nuc, here = some[op["nuc"][0] % len(some)], True
+                        out.label("setND:held-by-some-children")
                 val = 0.0 if op["zero"] else _val(op["v"])
                 touched.add(nuc)
                 if not comp and not here and val != 0.0:
@@ -914,12 +1018,16 @@ def run_program(out, tree, ops, queries=(), top=None, stats=None, handlers=None,
         for nuc, ea in expect.items():
             ga = post.atoms.get(nuc, 0.0)
             scale = max(pre.aabs.get(nuc, 0.0), post.aabs.get(nuc, 0.0))
+            if kind == "adjMF":
+                # adjustMassFrac hands the held nuclides to setMassFracs as "the rest", i.e. as (1 - sum of all others): their
+                # mass FRACTION is exact to a few ulp of 1.0, not of itself
+                scale = max(scale, 1e-4 * pre.total_mass() * C / _weight(nuc))
             if not out.check(_close(ga, ea, scale), sig_rb,
                              lambda: "%s: %s requested N=%r (mass %r g), children now hold N=%r (mass %r g); before N=%r" % (
                                  where, nuc, ea / pre.vol, ea * _weight(nuc) / C, ga / post.vol, ga * _weight(nuc) / C, pre.ndens(nuc))):
                 continue
             # ... and through the getters of the same level
-            if kind in MASS_OPS or kind.startswith("setMassFrac"):
+            if kind in MASS_OPS or kind.startswith("setMassFrac") or kind == "adjMF":
                 gm = obj.getMass(nuc)
                 em = ea * _weight(nuc) / C
                 # (a name that is also an element symbol selects the isotopes in components without the elemental nuclide)
@@ -951,7 +1059,7 @@ def run_program(out, tree, ops, queries=(), top=None, stats=None, handlers=None,
                           "edit/scaling-%s" % kind,
                           lambda: "%s: %s N %r -> %r, expected factor %r" % (where, nuc, a0 / pre.vol, a1 / post.vol, rest_factor))
         # -- setMassFracs keeps the density
-        if kind.startswith("setMassFrac"):
+        if kind.startswith("setMassFrac") or kind == "adjMF":
             m0, m1 = pre.total_mass(), post.total_mass()
             out.check(_close(m1, m0, 0.0), "edit/setMassFracs-density-changed",
                       lambda: "%s: total mass %r -> %r at constant volume" % (where, m0, m1))
@@ -1043,6 +1151,9 @@ def _op_strategy(nlevels):
                                "items": st.lists(st.tuples(st.integers(0, 200), st.integers(0, 8).map(lambda x: x == 0),
                                                            st.floats(0.01, 2.0).map(lambda x: round(x, 6)), st.booleans()).map(list),
                                                  min_size=2, max_size=4)}),
+        st.fixed_dictionaries({"op": st.just("adjMF"), "level": lvl, "t": tgt, "adj": st.tuples(st.integers(0, 200), st.integers(0, 2)).map(list),
+                               "hold": st.tuples(st.integers(0, 200), st.integers(0, 2)).map(list), "frac": _unit, "v": _unit,
+                               "seed": st.tuples(st.integers(0, 400), st.booleans()).map(list)}),
         st.fixed_dictionaries({"op": st.just("setMasses"), "level": lvl, "t": tgt, "items": st.lists(mitem, min_size=1, max_size=3),
                                "known": known}),
         st.fixed_dictionaries({"op": st.sampled_from(["setMassFracs", "setMassFrac"]), "level": lvl, "t": tgt,
@@ -1296,6 +1407,7 @@ def blocks_execute(case):
     from armi.reactor import composites
 
     out = Out()
+    _ALLOW_KNOWN[0] = bool(case.get("known"))
     tree = Tree()
     group = None
     root = None
@@ -1372,12 +1484,16 @@ def reactors_strategy(tier):
         "queries": st.lists(_query, min_size=1, max_size=4),
         "sample": st.lists(st.integers(0, 200), min_size=1, max_size=2),
         # (explicit selector: 3 in 10 structure steps, 2 in 10 swaps, the rest composition setters)
-        "ops": _ops(4, extra=_swap_op, lo=2, hi=7),
+        "ops": _ops(4, extra=st.one_of(_swap_op, _history_op), lo=2, hi=7),
     })
 
 
 # exchange two assemblies the way FuelHandler.swapAssemblies does (a1.moveTo(loc2); a2.moveTo(loc1)); ``cross`` asks for a pair
 # whose symmetry factors differ (centre <-> off-centre, on a symmetry line <-> off the line)
+_history_op = st.fixed_dictionaries({"op": st.just("editHeightEdit"), "level": st.integers(0, 1), "t": st.integers(0, 30), "b": st.integers(0, 30),
+                                     "n1": st.tuples(st.integers(0, 200), st.just(False)).map(list), "v1": _unit,
+                                     "n2": st.tuples(st.integers(0, 200), st.just(False)).map(list), "v2": _unit,
+                                     "hf": st.sampled_from([0.5, 0.75, 1.5, 2.0])})
 _swap_op = st.fixed_dictionaries({"op": st.just("swap"), "a": st.integers(0, 30), "b": st.integers(0, 30),
                                   "cross": st.integers(0, 3).map(lambda x: x != 0)})
 
@@ -1746,6 +1862,16 @@ def conversions_execute(case):
         out.check(_close(m2, case["rho"]), "conv/getMassInGrams-inverse", lambda: "%s: %r g -> N -> %r g" % (n, case["rho"], m2))
     out.check(_close(rho * V, math.fsum(dt.getMassInGrams(n, V, N[n]) for n in names)), "conv/mass-is-density-times-volume", "rho*V differs from the sum of nuclide masses")
     out.check(dt.calculateNumberDensity(names[0], 0.0, 0.0) == 0, "conv/calculateNumberDensity-zero", "0 g in 0 cm3 is not density 0")
+    # element -> nuclides of the directory: membership by atomic number
+    from armi.nucDirectory import nucDir
+
+    for s_ in sorted({_elem(n)[0] for n in names[:3]} | set(d["elem"][i % len(d["elem"])] for i in case["elems"])):
+        if s_ is None or s_ not in elements.bySymbol or not 0 < elements.bySymbol[s_].z < 119:
+            continue
+        want = _names_of_z(elements.bySymbol[s_].z)
+        got = set(nucDir.getNuclideNames(elementSymbol=s_))
+        out.check(got == want and {nb.name for nb in nucDir.getNuclides(elementSymbol=s_)} == want, "conv/nuclides-of-element",
+                  lambda: "nucDir.getNuclideNames(elementSymbol=%r): missing %s, extra %s" % (s_, sorted(want - got)[:6], sorted(got - want)[:6]))
     # chemicals: element totals
     chem = dt.getChemicals(dict(N))
     exp = {}
